@@ -213,7 +213,13 @@ def run_status(spec):
             if spec.get("nan") and len(rows) > 2:
                 df.loc[1, "loss"] = float("nan")
             er = ExperimentResult(name="e", results=df, metadata={"metric_names": ["loss"], "metric_mode": mode}, tuner=None, path=None)
-            er_best = int(er.best_config()["trial_id"])
+            er_best = [int(er.best_config()["trial_id"])]
+            # ... and on a table whose row labels are not 0..n-1 (rows filtered or re-ordered by the user): whatever row the lookup
+            # names, it names the same one for either mode
+            df2 = df.copy()
+            df2.index = list(range(len(df2)))[::-1]
+            er2 = ExperimentResult(name="e", results=df2, metadata={"metric_names": ["loss"], "metric_mode": mode}, tuner=None, path=None)
+            er_best.append(int(er2.best_config()["trial_id"]))
         # Tuner.best_config on a scheduler with per-metric modes (MOASHA): the mode of the metric asked for decides
         tb = None
         if rows:
